@@ -267,17 +267,23 @@ pub struct EnvCase {
     pub unset: Vec<String>,
     /// working directory relative to the prepared root ("" = a fresh empty directory)
     pub cwd: String,
+    /// the child is given the copy of the fixtures that lies under a directory whose name has
+    /// pattern characters, a blank and a non-ASCII letter
+    pub odd_root: bool,
 }
 
 pub fn menu() -> (Vec<EnvCase>, Vec<String>, Vec<String>) {
     let (names, computed) = library_env_reads();
     let mut m = vec![];
-    let mk = |name: &str, vars: &[(&str, &str)], unset: &[&str], cwd: &str| EnvCase { name: name.to_string(), vars: vars.iter().map(|(k, v)| (k.to_string(), v.to_string())).collect(), unset: unset.iter().map(|s| s.to_string()).collect(), cwd: cwd.to_string() };
+    let mk = |name: &str, vars: &[(&str, &str)], unset: &[&str], cwd: &str| EnvCase { name: name.to_string(), vars: vars.iter().map(|(k, v)| (k.to_string(), v.to_string())).collect(), unset: unset.iter().map(|s| s.to_string()).collect(), cwd: cwd.to_string(), odd_root: false };
     m.push(mk("baseline", &[], &[], ""));
     // not an environment but a history: the child first works on other inputs, then computes the
     // battery; and computes it a second time (the answer of the second pass is reported)
     m.push(mk("after other work in the same process", &[("ITV_PROBE_HISTORY", "warm")], &[], ""));
     m.push(mk("second pass in the same process", &[("ITV_PROBE_HISTORY", "twice")], &[], ""));
+    // not an environment but a place: the same fixtures under a directory named `od[d] *?é`
+    m.push(EnvCase { odd_root: true, ..mk("fixtures under a directory named with pattern characters", &[], &[], "") });
+    m.push(EnvCase { odd_root: true, ..mk("fixtures under such a directory, run from inside its link directory", &[], &[], "delegated-ok/links") });
     for (n, v) in [("C", "C"), ("POSIX", "POSIX"), ("latin1", "en_US.ISO-8859-1"), ("utf8", "en_US.UTF-8"), ("turkish", "tr_TR.UTF-8")] {
         m.push(mk(&format!("LANG={n}"), &[("LANG", v)], &["LC_ALL", "LC_CTYPE"], ""));
         m.push(mk(&format!("LC_ALL={n}"), &[("LC_ALL", v), ("LC_CTYPE", v), ("LANG", v)], &[], ""));
@@ -318,6 +324,8 @@ pub struct ProbeResult {
 pub fn run() -> ProbeResult {
     let root = util::fresh_dir("envprobe");
     prepare(&root);
+    let root_odd = util::fresh_dir("envprobe").join("od[d] *?\u{e9}");
+    prepare(&root_odd);
     let (cases, names, computed) = menu();
     let exe = std::env::current_exe().unwrap();
     let mut results: Vec<(String, BTreeMap<String, String>)> = vec![];
@@ -326,11 +334,13 @@ pub fn run() -> ProbeResult {
             util::fresh_dir("envprobe-cwd")
         } else if c.cwd == "/" {
             PathBuf::from("/")
+        } else if c.odd_root {
+            root_odd.join(&c.cwd)
         } else {
             root.join(&c.cwd)
         };
         let mut cmd = Command::new(&exe);
-        cmd.args(["worker", "envprobe", root.to_str().unwrap()]).current_dir(&cwd);
+        cmd.args(["worker", "envprobe", if c.odd_root { root_odd.to_str().unwrap() } else { root.to_str().unwrap() }]).current_dir(&cwd);
         for (k, v) in &c.vars {
             cmd.env(k, v);
         }
@@ -404,6 +414,6 @@ pub fn judge(acc: &mut crate::report::Acc, prefix: &str, extra: &mut serde_json:
     extra.insert(
         "environment_probe".into(),
         json!({"environments": r.environments, "items_of_this_property": n_items, "variables_read_by_the_library_sources": r.env_reads, "reads_with_computed_names": r.computed_env_reads,
-               "menu": "locale variables (C, POSIX, Latin-1, UTF-8, Turkish) via LANG and LC_ALL; 4 time zones; HOME/PATH/USER/TMPDIR unset; 5 working directories (incl. the link directory and one holding misfiled inner links); every variable the library sources read x 4 values; 6 variable names of or like the reference implementation; two call histories (the battery after other work through the same entry points in the same process; the battery a second time in one process)"}),
+               "menu": "locale variables (C, POSIX, Latin-1, UTF-8, Turkish) via LANG and LC_ALL; 4 time zones; HOME/PATH/USER/TMPDIR unset; 5 working directories (incl. the link directory and one holding misfiled inner links); every variable the library sources read x 4 values; 6 variable names of or like the reference implementation; the fixtures under a directory whose name has pattern characters, a blank and a non-ASCII letter; two call histories (the battery after other work through the same entry points in the same process; the battery a second time in one process)"}),
     );
 }
